@@ -72,6 +72,33 @@ def processTx (id : Nat) (data : Bytes) (mtu : Option Nat) : List Bytes × Optio
   | .ok ds => (ds, none)
   | .failed => ([], some (id, data.length, "failed"))
 
+/-- What the D-Bus client and the wire see of the transfers queued to one peer, in queue order:
+    `_process_tx_queue` announces a transfer and hands its datagrams to the pacing queue
+    (`TxSendWait`), which sends them in order and announces `'success'` after the last one; a
+    transfer that cannot be segmented is announced `'failed'` at once and nothing of it is sent.
+    (Relative order between different transfers' `started` signals and earlier transfers' datagrams
+    depends on idle/timer scheduling and is not modelled: the list is per transfer.) -/
+inductive TxEvent
+  | started (id len : Nat)
+  | dgram (d : Bytes)
+  | finished (id len : Nat) (result : String)
+  deriving DecidableEq, Repr
+
+def txItem (mtu : Option Nat) (t : Nat × Bytes) : List TxEvent :=
+  .started t.1 t.2.length ::
+    match sendTransfer t.1 t.2 mtu with
+    | .ok ds => ds.map .dgram ++ [.finished t.1 t.2.length "success"]
+    | .failed => [.finished t.1 t.2.length "failed"]
+
+/-- the whole TX queue `(transfer id, data)` -/
+def txRun (mtu : Option Nat) (q : List (Nat × Bytes)) : List TxEvent := q.flatMap (txItem mtu)
+
+/-- how many `send_bundle_finished` signals carry id `i` -/
+def finCount (i : Nat) (evs : List TxEvent) : Nat :=
+  (evs.filter fun e => match e with
+    | .finished j _ _ => j == i
+    | _ => false).length
+
 /-! ## Receiving: state -/
 
 /-- Key of the RX fragment table: `(str(conv.peer_address), conv.peer_port, xfer_id)`. -/
